@@ -142,7 +142,7 @@ func (tc tcase) String() string {
 	return sb.String()
 }
 
-var firsts = []string{"required", "required", "optional", "among", "absent-others", "absent-empty", "missing-eof", "missing-error"}
+var firsts = []string{"required", "required", "optional", "among", "among", "absent-others", "absent-empty", "missing-eof", "missing-error"}
 var answers = []string{"proceed", "proceed", "proceed", "failure", "wrongns", "unknown", "text", "garbage", "eof"}
 var afters = []string{"tls", "tls", "tls-inject", "tls-inject", "garbage"}
 
@@ -178,6 +178,9 @@ type sresult struct {
 	problems   []string
 	panicked   string
 	tlsFirst   []byte // first protected bytes the TLS server read
+	// namespaces Session.Feature reports as advertised "for the current stream"
+	// once the session is established
+	reported map[string]bool
 }
 
 func header(from string) string {
@@ -255,7 +258,7 @@ func runSession(sc sessionCase, feature xmpp.StreamFeature, forceTee *bool) sres
 		case "optional":
 			feedClear(header(sc.domain) + `<stream:features>` + starttls + `</stream:features>`)
 		case "among":
-			feedClear(header(sc.domain) + `<stream:features>` + mechs + starttls + `<bind xmlns="` + bindNS + `"/></stream:features>`)
+			feedClear(header(sc.domain) + `<stream:features>` + mechs + starttls + `<bind xmlns="` + bindNS + `"/><sec xmlns="urn:verif:sec"/></stream:features>`)
 		case "absent-others":
 			feedClear(header(sc.domain) + `<stream:features>` + mechs + `<bind xmlns="` + bindNS + `"/><sec xmlns="urn:verif:sec"/></stream:features>`)
 		case "absent-empty":
@@ -437,6 +440,12 @@ func runSession(sc sessionCase, feature xmpp.StreamFeature, forceTee *bool) sres
 	if s != nil {
 		res.state = s.State()
 		res.hsComplete = s.ConnectionState().HandshakeComplete
+		res.reported = map[string]bool{}
+		for _, ns := range []string{tlsNS, saslNS, bindNS, "urn:verif:sec"} {
+			if _, ok := s.Feature(ns); ok {
+				res.reported[ns] = true
+			}
+		}
 	}
 	out := conn.Output()
 	// clear text = everything before the first TLS record (0x16 handshake)
@@ -531,6 +540,33 @@ func check(t failer, tc tcase) {
 		}
 		if r.state&xmpp.Authn != 0 && !r.hsComplete {
 			fail("authenticated bit set on a connection without TLS")
+		}
+		// (c') what was advertised in clear text only is not an advertisement of
+		// the protected stream (Session.Feature: "advertised ... for the current stream")
+		if r.err == nil && r.hsComplete {
+			clearOnly := map[string]bool{}
+			switch sc.first {
+			case "required", "optional":
+				clearOnly[tlsNS] = true
+			case "among":
+				clearOnly[tlsNS], clearOnly[saslNS], clearOnly[bindNS], clearOnly["urn:verif:sec"] = true, true, true, true
+			}
+			if sc.after == "tls-inject" {
+				clearOnly[saslNS] = true
+			}
+			if sc.honest {
+				// re-advertised inside TLS
+				delete(clearOnly, saslNS)
+				delete(clearOnly, bindNS)
+			}
+			for _, ns := range []string{tlsNS, saslNS, bindNS, "urn:verif:sec"} {
+				if clearOnly[ns] && r.reported[ns] {
+					fail("Session.Feature(%q) reports the feature as advertised on the TLS-protected stream, but the peer only ever advertised it in clear text before the TLS layer was installed", ns)
+				}
+			}
+			if len(clearOnly) > 1 {
+				ev.Class("clear-only-advertisements-then-tls")
+			}
 		}
 		// (d) default configuration names this session's own domain
 		if r.sawHello {
